@@ -176,14 +176,14 @@ PROPS = {
    design_ref="DESIGN.md s4 C05, s3 E5"),
  "C06": dict(repo_probes=['session.save_skipped_fixed_unchanged', 'session.renewal_skipped_below_10_percent'], engine="E5 session", src="e5_session", variants=["asan"], level="exploration",
    seconds={"quick": 40, "thorough": 600},
-   rule="case = 1..3 simulated browsers (sequential in plan order, or - 1/3 of multi-browser runs - one scheduled thread per browser plus an environment thread, seeded schedule) issuing 2..32 requests (load; 0..6 of set/erase/clear/expose/hide/age/default_age/expiration/default_expiration/on_server/reset_session; optional clock advance inside the request; save) against one session_pool with location client|server|both, storage memory|files (simulated FS, optional short/interrupted I/O), "
+   rule="case = 1..3 simulated browsers (sequential in plan order, or - 1/3 of multi-browser runs - one scheduled thread per browser plus an environment thread, seeded schedule) issuing 2..32 requests (load; 0..6 of set/erase/clear/expose/hide/age/default_age/expiration/default_expiration/on_server/reset_session; optional clock advance inside the request; save) against one session_pool with location client|server|both, storage memory|files (simulated FS, optional short/interrupted I/O)|network (20%: a real tcp_cache_service session server with its own thread on the simulated network, run in a forked child), "
         "expire fixed|renew|browser, client_size_limit flipping cookie/server storage, remove_unknown_cookies on/off; interleaved with clock advances (around deadlines and the 10% renewal boundary), gc, browser restarts and attacker requests (ended ids, path-like / upper-case / short / long / non-hex ids, junk C cookies). "
         "Oracle after every request: loaded view == reference model (values, exposed flags, age, expiration, on_server) or empty once cleared/expired (interval model: renewal may be skipped only while < 10% of the period has elapsed); cookie prefix (I/C) matches the prescribed storage location; server ids well-formed, fresh on new/reset sessions, old ids gone from the storage after clear/reset/migration; "
         "exposed values present in / absent from the browser's cookies in step with the session; ids not of the issued form never reach the storage (spy storage). non-trivial = >= 3 requests, a live load and a clock advance; distinct = plan hash",
    fault_keys=["file_short_io", "file_eintr", "ticks", "attacks", "browser_closed", "gc"],
-   probe_keys=["fixed_unchanged", "renew_skippable", "renew_boundary", "renewed", "moved_server_to_client", "moved_client_to_server", "sessions_reset", "session_cleared", "expired_during_request", "exposed_checked", "on_server_refused", "server_side_saves", "client_side_saves", "concurrent_runs", "thread_switches", "mutex_contended"],
+   probe_keys=["fixed_unchanged", "renew_skippable", "renew_boundary", "renewed", "moved_server_to_client", "moved_client_to_server", "sessions_reset", "session_cleared", "expired_during_request", "exposed_checked", "on_server_refused", "server_side_saves", "client_side_saves", "network_storage_runs", "concurrent_runs", "thread_switches", "mutex_contended"],
    components=E5C,
-   assumptions=["in a third of the multi-browser runs every browser is its own scheduled thread (requests of different browsers, gc and attacker requests interleave at every lock / file operation; the clock then moves only between requests); network session storage is not exercised", "a browser presents the cookies it held when the request began (snapshot), as a real HTTP request does",
+   assumptions=["in a third of the multi-browser runs every browser is its own scheduled thread (requests of different browsers, gc and attacker requests interleave at every lock / file operation; the clock then moves only between requests); the network session storage is exercised without connection faults", "a browser presents the cookies it held when the request began (snapshot), as a real HTTP request does",
                 "an id a browser merely forgot is still a live bearer token; only cleared/reset/expired ids are treated as ended"],
    category="exploration",
    text="Deterministic simulation of browsers, clock, entropy and disk around the real session stack; a reference model of the documented save policy is compared after every request, including storage location, id freshness and exposed cookies.",
